@@ -598,7 +598,15 @@ func (ex *Exec) specCall(call *ast.CallExpr, info *types.Info, env *SpecEnv, pc 
 		e2 := *env
 		e2.st = env.old
 		e2.inOld = true
-		return ex.evalSpec(call.Args[0], info, &e2, pc)
+		v := ex.evalSpec(call.Args[0], info, &e2, pc)
+		if sl, ok := v.(SliceV); ok && sl.Snap == nil {
+			// old(s) of a slice captures its elements as they were
+			if es, ok := scalarSort(sl.Elem); ok {
+				sl.Snap = ex.sliceArr(env.old, sl, 0, es)
+				return sl
+			}
+		}
+		return v
 	case "implies":
 		e2 := *env
 		e2.pol = -env.pol
@@ -670,6 +678,23 @@ func (ex *Exec) specCall(call *ast.CallExpr, info *types.Info, env *SpecEnv, pc 
 			panic("contract: oncedone() of a non-Once")
 		}
 		return BoolV{ov.Done}
+	case "bufbytes":
+		// bufbytes(&buf): the unread content of a bytes.Buffer
+		ex.dry++
+		ex.inSpec++
+		bv, ok := ex.load(env.st, arg(0), nil, pc, token.NoPos).(BufV)
+		ex.dry--
+		ex.inSpec--
+		if !ok {
+			panic("contract: bufbytes() of a non-Buffer")
+		}
+		return SliceV{St: StDyn, ID: bv.ID, Off: BV(0, 64), Len: bv.Len, Cap: bv.Len, Elem: types.Typ[types.Uint8]}
+	case "disjoint":
+		a, b := arg(0).(SliceV), arg(1).(SliceV)
+		if a.St != b.St || a.St == StLocal {
+			return BoolV{True}
+		}
+		return BoolV{Or(Neq(a.ID, b.ID), Eq(a.Len, BV(0, 64)), Eq(b.Len, BV(0, 64)), BVSle(BVAdd(a.Off, a.Len), b.Off), BVSle(BVAdd(b.Off, b.Len), a.Off))}
 	case "past":
 		t := arg(0).(TimeV).T
 		return BoolV{And(BVSle(BV(0, 64), t), BVSle(t, env.st.get("ghost|clock", SBV(64))))}
